@@ -51,7 +51,20 @@ func verifReuse(withResetVars bool) {
 			return
 		}
 	}
-	verifHavocField(p, i)
+	switch name {
+	case "globals":
+		// representation invariant: one slot per global scalar; dirty every slot
+		for k := range p.globals {
+			p.globals[k] = str(verifString(1))
+		}
+	case "arrays":
+		// representation invariant: one map per global array (call frames restore the length); dirty every map
+		for k := range p.arrays {
+			p.arrays[k][verifString(1)] = num(1)
+		}
+	default:
+		verifHavocField(p, i)
+	}
 	// the sequence Interpreter.Execute performs (plus ResetVars/ResetRand as the user is told to call them)
 	if withResetVars {
 		p.resetVars()
